@@ -330,3 +330,1161 @@ def indexWriteErrCloses : Bool := {_lb(p["index_write_err_closes"])}
 end Dulwich.Gen.Lock
 """
     return {"Lock": src}
+
+
+# ------------------------------------------------------------------------------------------------
+# extension of harness/sched.py: `write` / `flush` on the lock file's Python file object are yield
+# points and fault-injection points too (they are where ENOSPC/EIO surface), without touching sched.py.
+
+class _YFile:
+    """Proxy for the file object `_GitFile` keeps in `self._file`: write()/flush() go through the
+    interposer's handler (so they are scheduling / fault-injection points); everything else is passed on."""
+
+    def __init__(self, real, ip, rel):
+        self.__dict__["_real"] = real
+        self.__dict__["_ip"] = ip
+        self.__dict__["_rel"] = rel
+
+    def write(self, data):
+        who = self._ip.actor()
+        if who is None:
+            return self._real.write(data)
+        return self._ip.handler(who, "write", (self._rel,), lambda: self._real.write(data))
+
+    def writelines(self, lines):
+        for ln in lines:
+            self.write(ln)
+
+    def flush(self):
+        who = self._ip.actor()
+        if who is None:
+            return self._real.flush()
+        return self._ip.handler(who, "flush", (self._rel,), lambda: self._real.flush())
+
+    def close(self):
+        return self._real.close()
+
+    def __iter__(self):
+        return iter(self._real)
+
+    def __getattr__(self, name):
+        return getattr(self._real, name)
+
+
+class _FileYields:
+    """Context manager: while active, `os.fdopen(fd, 'wb', …)` on a descriptor that a registered actor
+    obtained through the interposed `os.open` returns a _YFile."""
+
+    def __init__(self, ip: sched.Interposer):
+        self.ip = ip
+
+    def __enter__(self):
+        self.real = os.fdopen
+        real, ip = self.real, self.ip
+
+        def fdopen(fd, *a, **k):
+            f = real(fd, *a, **k)
+            if ip.actor() is not None and isinstance(fd, int) and fd in ip.fd_paths:
+                mode = a[0] if a else k.get("mode", "r")
+                if "w" in mode or "a" in mode or "+" in mode:
+                    return _YFile(f, ip, ip.fd_paths[fd])
+            return f
+        os.fdopen = fdopen
+        return self
+
+    def __exit__(self, *exc):
+        os.fdopen = self.real
+
+
+def _scrub(e: BaseException):
+    """Drop the frames an exception keeps alive (they reference the `_GitFile` handle); the harness decides
+    when a handle is finalised, not the garbage collector."""
+    try:
+        traceback.clear_frames(e.__traceback__)
+    except Exception:
+        pass
+    e.__traceback__ = None
+    e.__context__ = None
+    e.__cause__ = None
+
+
+FAULTS = {
+    "enospc": lambda: OSError(errno.ENOSPC, "No space left on device (injected)"),
+    "eperm": lambda: PermissionError(errno.EPERM, "Operation not permitted (injected)"),
+    "kbint": lambda: KeyboardInterrupt("injected"),
+    "eio": lambda: OSError(errno.EIO, "Input/output error (injected)"),
+}
+FAULT_KINDS = ["enospc", "eperm", "kbint"]
+SCHED_CALLS = {"open-x", "open-w", "fsync", "stat", "chmod", "replace", "remove"}
+OPEN_CALLS = ("open-x", "open-w")   # open-w: the lock file opened without O_EXCL (only a mutated program does that)
+LOCK_CALLS = {"open-x", "write", "flush", "fsync", "stat", "chmod", "replace", "remove"}
+
+
+# ------------------------------------------------------------------------------------------------
+# op scripts
+
+class Script:
+    """One actor: GitFile(f, 'wb', fsync=…, shared_perm=…) then `body`; `hW`/`hC` = what the caller does when
+    write()/close() raises.  ops: ('w', bytes) | 'c' | 'a'."""
+
+    def __init__(self, body, hW=("a",), hC=(), fsync=True, perm=False):
+        self.body, self.hW, self.hC, self.fsync, self.perm = list(body), list(hW), list(hC), fsync, perm
+
+    @staticmethod
+    def _ops(ops):
+        return ".".join(("w" + hx(o[1])) if isinstance(o, tuple) else o for o in ops) or "_"
+
+    def spec(self) -> str:
+        return f"{int(self.fsync)}{int(self.perm)}:{self._ops(self.body)}:{self._ops(self.hW)}:{self._ops(self.hC)}"
+
+    def to_json(self):
+        return {"spec": self.spec()}
+
+    @staticmethod
+    def from_spec(s: str) -> "Script":
+        flags, body, hW, hC = s.split(":")
+
+        def ops(t):
+            if t == "_":
+                return []
+            return [("w", unhx(x[1:])) if x[0] == "w" else x for x in t.split(".")]
+        return Script(ops(body), ops(hW), ops(hC), flags[0] == "1", flags[1] == "1")
+
+    def intended(self):
+        """content this caller means to commit: the writes before its first close() (None if it never closes)"""
+        out = b""
+        for o in self.body:
+            if isinstance(o, tuple):
+                out += o[1]
+            elif o == "c":
+                return out
+            else:
+                return None
+        return None
+
+    def disciplined(self) -> bool:
+        """with/abort discipline: never close() after an error"""
+        return "c" not in self.hW and "c" not in self.hC
+
+
+def W(*ds, end="c", **kw):
+    return Script([("w", d) for d in ds] + ([end] if end else []), **kw)
+
+
+# ------------------------------------------------------------------------------------------------
+# running scripts on real `_GitFile` handles under a schedule
+
+class RealRun:
+    def __init__(self):
+        self.events = []        # (actor index, call, outcome)
+        self.steps = []         # executed schedule: (actor index, fault kind or None)
+        self.snaps = []         # snaps[k] = (listing, content of f) after k events
+        self.lock_owner = []    # lock_owner[k] = creator of f.lock after k events (None if absent)
+        self.closed = {}        # actor index -> handle._closed (handles that exist)
+        self.results = {}
+        self.written = {}       # actor index -> data successfully written so far, per event index
+        self.api = {}           # actor index -> [(op kind 'w'|'c'|'a', 'ok'|'raised')]: the API calls the caller made
+        self.error = None
+
+
+def run_real(root: Path, scripts: list[Script], schedule, init: bytes | None, file_yields=True,
+             start_is_step=False) -> RealRun:
+    """Drive one `_GitFile` handle per script on root/f following `schedule`:
+    a list of (actor index, fault kind | None); entries naming an actor that is not pending are skipped, after
+    the list the lowest pending actor runs.  With start_is_step the scheduler's initial park of each thread
+    counts as a schedule entry (the convention of harness/sched.py's plain lists)."""
+    from dulwich.file import GitFile, FileLocked, PERM_GROUP
+    root = Path(os.path.realpath(root))
+    if root.exists():
+        shutil.rmtree(root)
+    root.mkdir(parents=True)
+    target = root / "f"
+    if init is not None:
+        target.write_bytes(init)
+    rr = RealRun()
+    names = [f"a{i:02d}" for i in range(len(scripts))]
+    idx = {n: i for i, n in enumerate(names)}
+    handles = {}
+    wlog = {i: b"" for i in range(len(scripts))}
+    sc = sched.Scheduler(str(root), calls=SCHED_CALLS, watch_reads=True, timeout=30.0)
+
+    def make(i, s: Script):
+        def do(f, op):
+            kind = "w" if isinstance(op, tuple) else op
+            log = rr.api.setdefault(i, [])
+            log.append((kind, "raised"))
+            if isinstance(op, tuple):
+                f.write(op[1])
+                wlog[i] += op[1]
+            elif op == "c":
+                f.close()
+            else:
+                f.abort()
+            log[-1] = (kind, "ok")
+
+        def fn():
+            try:
+                f = GitFile(str(target), "wb", fsync=s.fsync, shared_perm=PERM_GROUP if s.perm else None)
+            except FileLocked:
+                return "locked"
+            except BaseException as e:  # noqa: BLE001
+                _scrub(e)
+                return "open-failed"
+            handles[i] = f
+            cur = None
+            try:
+                for op in s.body:
+                    cur = op
+                    do(f, op)
+                return "done"
+            except BaseException as e:  # noqa: BLE001
+                _scrub(e)
+                h = s.hW if isinstance(cur, tuple) else (s.hC if cur == "c" else [])
+                try:
+                    for op in h:
+                        do(f, op)
+                except BaseException as e2:  # noqa: BLE001
+                    _scrub(e2)
+                    return "failed-in-handler"
+                return "failed"
+        return fn
+
+    for i, s in enumerate(scripts):
+        sc.spawn(names[i], make(i, s))
+
+    def snapshot():
+        listing = sorted(os.listdir(root))
+        try:
+            content = target.read_bytes()
+        except FileNotFoundError:
+            content = None
+        return listing, content
+
+    seq = list(schedule)
+    state = {"owner": None, "nev": 0}
+
+    def absorb(history):
+        # fold new real events into the log
+        evs = [e for e in history if e[1] != "start"]
+        while state["nev"] < len(evs):
+            who, call, paths, outcome = evs[state["nev"]]
+            i = idx[who]
+            rr.events.append((i, call, outcome))
+            if call in OPEN_CALLS and outcome == "ok":
+                state["owner"] = i
+            state["nev"] += 1
+            snap = snapshot()
+            rr.snaps.append(snap)
+            rr.lock_owner.append(state["owner"] if "f.lock" in snap[0] else None)
+            rr.written[len(rr.events)] = dict(wlog)
+
+    def choose(pending, history):
+        absorb(history)
+        if not start_is_step:
+            for a in sorted(pending):
+                if pending[a][0] == "start":
+                    return a
+        while seq:
+            i, fk = seq.pop(0)
+            a = names[i]
+            if a in pending:
+                if pending[a][0] == "start":
+                    return a  # (start_is_step) consumes the entry, nothing to inject
+                rr.steps.append((i, fk))
+                return (a, FAULTS[fk]()) if fk else a
+        a = sorted(pending)[0]
+        if pending[a][0] != "start":
+            rr.steps.append((idx[a], None))
+        return a
+
+    rr.snaps.append(snapshot())
+    rr.lock_owner.append(None)
+    rr.written[0] = dict(wlog)
+    gc_was = gc.isenabled()
+    gc.disable()
+    old_umask = os.umask(0o022)
+    try:
+        with warnings.catch_warnings():
+            warnings.simplefilter("ignore")
+            if file_yields:
+                with _FileYields(sc.ip):
+                    hist = sc.run(choose)
+            else:
+                hist = sc.run(choose)
+            absorb(sc.history)
+            for i, r in sc.results.items():
+                rr.results[idx[i]] = r.value if r.exc is None else "exc:" + type(r.exc).__name__
+            for i, f in handles.items():
+                rr.closed[i] = bool(f._closed)
+            # finalise what is still open (uninterposed) so that nothing fires later from the collector
+            for f in handles.values():
+                if not f._closed:
+                    try:
+                        f._file.close()
+                    except Exception:
+                        pass
+                    f._closed = True
+    except RuntimeError as e:
+        rr.error = str(e)
+    finally:
+        os.umask(old_umask)
+        if gc_was:
+            gc.enable()
+    return rr
+
+
+def canon_outcome(o: str) -> str:
+    return "inject" if o.startswith("inject:") else o
+
+
+def real_trace(rr: RealRun) -> list[str]:
+    out = []
+    for k, (i, call, outcome) in enumerate(rr.events):
+        listing, content = rr.snaps[k + 1]
+        own = rr.lock_owner[k + 1]
+        out.append(f"{call}:{canon_outcome(outcome)}:{'x' if content is None else hx(content)}:"
+                   f"{'x' if own is None else own}")
+    return out
+
+
+def model_line(scripts, steps, init, prog="gen") -> str:
+    st = ",".join(f"{i}{'!' if fk else ''}" for i, fk in steps) or "_"
+    return f"c07.run {prog} {'x' if init is None else hx(init)} {'|'.join(s.spec() for s in scripts)} {st}"
+
+
+def parse_model(out: str):
+    if " | " not in out:
+        return None, {}
+    tr, fin = out.split(" | ")
+    fin = dict(kv.split("=", 1) for kv in fin.split())
+    return (tr.split(";") if tr else []), fin
+
+
+# ------------------------------------------------------------------------------------------------
+# the direct oracle: a mutual-exclusion monitor over what really happened (no model involved)
+
+def monitor(scripts, init, rr: RealRun):
+    """Returns a list of (what, cls) violations of the property's words."""
+    bad = []
+    inside = set()
+    failed = set()          # actors that saw an exception from one of their calls
+    rm_faulted = set()
+    committed = {}
+    pre_close_fault = set()
+    prev_content = rr.snaps[0][1]
+    if "f.lock" in rr.snaps[0][0]:
+        bad.append(("stale lock before anybody started", "harness"))
+    for k, (i, call, outcome) in enumerate(rr.events):
+        listing, content = rr.snaps[k + 1]
+        owner_before = rr.lock_owner[k]
+        oc = canon_outcome(outcome)
+        if call in OPEN_CALLS and oc == "ok":
+            if inside:
+                bad.append((f"step {k}: actor {i} obtained the lock while {sorted(inside)} still hold(s) it",
+                            "two-holders"))
+            inside.add(i)
+        elif call in ("replace", "remove") and oc == "ok":
+            if owner_before != i or i not in inside:
+                bad.append((f"step {k}: actor {i} {call}d a lock file it does not hold "
+                            f"(created by actor {owner_before}, holders {sorted(inside)})", "foreign-lock-disturbed"))
+            inside.discard(i)
+            if call == "replace":
+                committed[i] = content
+                if content != rr.written[k + 1][i]:
+                    bad.append((f"step {k}: after actor {i}'s rename `f` is not what it wrote through its handle",
+                                "rename-wrong-content"))
+                if scripts[i].disciplined():
+                    if i in failed:
+                        bad.append((f"step {k}: actor {i} renamed its lock file into place after one of its calls "
+                                    f"had failed", "commit-after-failure"))
+                    elif content != scripts[i].intended():
+                        bad.append((f"step {k}: actor {i} committed incomplete content", "partial-commit"))
+        elif call == "remove" and oc == "FileNotFoundError":
+            if i in inside:
+                bad.append((f"step {k}: the lock file of holder {i} had vanished when it released it",
+                            "foreign-lock-disturbed"))
+            inside.discard(i)
+        elif call in ("replace", "stat", "chmod") and oc == "FileNotFoundError":
+            if i in inside:
+                bad.append((f"step {k}: the lock file of holder {i} had vanished under it ({call})",
+                            "foreign-lock-disturbed"))
+        if oc not in ("ok",) and not (call == "remove" and oc == "FileNotFoundError") and \
+                not (call in OPEN_CALLS and oc == "FileExistsError"):
+            failed.add(i)
+            if call == "remove":
+                rm_faulted.add(i)
+            if call in ("flush", "fsync", "stat", "chmod") and oc in ("inject", "ValueError"):
+                pre_close_fault.add(i)
+        # readers: `f` only changes at a successful rename, never disappears
+        if content != prev_content and not (call == "replace" and oc == "ok"):
+            bad.append((f"step {k}: `f` changed at a step that is not a successful rename ({call}:{oc})",
+                        "target-changed-outside-rename"))
+        if content is None and init is not None:
+            bad.append((f"step {k}: `f` is missing", "target-missing"))
+        prev_content = content
+        # holders still have their lock file in place
+        if inside and "f.lock" not in listing:
+            bad.append((f"step {k}: holder(s) {sorted(inside)} but no lock file", "foreign-lock-disturbed"))
+    # at the end every handle has been closed/aborted by its caller: no lock may be left behind
+    listing, content = rr.snaps[-1]
+    if rr.error is None and "f.lock" in listing:
+        holder = rr.lock_owner[-1]
+        rel = [(op, res) for op, res in rr.api.get(holder, []) if op in ("c", "a")]
+        if holder in rm_faulted:
+            pass    # unlink itself failed: nothing the code can do
+        elif not rel:
+            pass    # the caller never called close()/abort() (after the failure): its fault, not the protocol's
+        elif rel[-1] == ("c", "raised") and holder in pre_close_fault:
+            bad.append((f"close() of actor {holder} failed before the rename and left `f.lock` behind "
+                        f"(only the finaliser would remove it)", "close-fault-before-rename:lock-left-until-finalizer"))
+        else:
+            bad.append((f"lock file left behind by actor {holder} although its caller's last call was "
+                        f"{rel[-1]}", "lock-leaked"))
+    return bad
+
+
+# ------------------------------------------------------------------------------------------------
+# one case = scripts + schedule: real run, monitor, model comparison
+
+def check_case(ctx, stream, root, scripts, schedule, init, tag=None, model=True, plain=False, lines=None):
+    rr = run_real(root, scripts, schedule, init, file_yields=not plain, start_is_step=plain)
+    case = {"scripts": [s.spec() for s in scripts], "schedule": [[i, fk] for i, fk in schedule],
+            "executed": [[i, fk] for i, fk in rr.steps], "init": None if init is None else hx(init), "plain": plain}
+    if rr.error is not None:
+        raise core.InfraError(f"scheduler failed on {case}: {rr.error}")
+    nfault = sum(1 for _, fk in rr.steps if fk)
+    ctx.count(stream, (tuple(case["scripts"]), tuple(map(tuple, case["executed"])), case["init"]), True,
+              tag or f"{len(scripts)}actors:{nfault}faults")
+    for what, cls in monitor(scripts, init, rr):
+        ctx.oracle_fail(stream, dict(case, events=[list(e) for e in rr.events]), what, cls)
+    if model and not plain:
+        lines.append((stream, case, model_line(scripts, rr.steps, init), real_trace(rr),
+                      "".join("1" if rr.closed.get(i) else "0" for i in range(len(scripts)))))
+    return rr
+
+
+def flush_model(ctx, lines):
+    if not lines:
+        return
+    outs = ctx.driver.batch([l[2] for l in lines])
+    for (stream, case, line, real, closed), out in zip(lines, outs):
+        tr, fin = parse_model(out)
+        if tr is None:
+            ctx.disagree(stream, case, out[:200], ";".join(real)[:400])
+            continue
+        if tr != real:
+            k = next((j for j in range(min(len(tr), len(real))) if tr[j] != real[j]), min(len(tr), len(real)))
+            ctx.disagree(stream, dict(case, first_diff_step=k), ";".join(tr)[:600], ";".join(real)[:600])
+        elif fin.get("closed") != closed or "0" in fin.get("done", "0"):
+            ctx.disagree(stream, case, f"final {fin}", f"closed={closed} (all actors finished)")
+    lines.clear()
+
+
+# ------------------------------------------------------------------------------------------------
+# streams under the scheduler
+
+def solo_len(root, s: Script, init) -> int:
+    rr = run_real(root, [s], [], init)
+    if rr.error:
+        raise core.InfraError("solo run failed: " + rr.error)
+    return len(rr.events)
+
+
+PAIR_SCRIPTS = [
+    ("wwc/wc", W(b"A1", b"A2"), W(b"B1")),
+    ("wc-nofsync/wc", W(b"A", fsync=False), W(b"B")),
+    ("wc-perm/wc-perm", W(b"A", perm=True), W(b"BB", perm=True)),
+    ("wa/wc", W(b"A", end="a"), W(b"B")),
+    ("wc+a/wc+c", Script([("w", b"A"), "c", "a"]), Script([("w", b"B"), "c", "c"])),
+    ("wa+c/a", Script([("w", b"A"), "a", "c"]), Script(["a"])),
+    ("c-empty/wcw", Script(["c"]), Script([("w", b"B"), "c", ("w", b"late")])),
+    ("with-finalised/with", W(b"A", hC=["a"]), W(b"B", hC=["a"], perm=True)),
+]
+
+
+def _stream_exhaustive2(ctx, root, lines):
+    """all interleavings with <= 2 pre-emptions of two actors, for a catalogue of script pairs"""
+    stream = "sched.exhaustive2"
+    total = 0
+    for name, a, b in PAIR_SCRIPTS:
+        for init in (b"old",) if name != "wwc/wc" else (b"old", None):
+            la, lb = solo_len(root, a, init), solo_len(root, b, init)
+            for sch in sched.enumerate_schedules({"0": la, "1": lb}, 2):
+                check_case(ctx, stream, root, [a, b], [(int(x), None) for x in sch], init, tag=name, lines=lines)
+                total += 1
+        flush_model(ctx, lines)
+    ctx.extra_cov["exhaustive2_schedules"] = total
+
+
+def _stream_faults2(ctx, root, lines):
+    """a fault at every position of a few base interleavings, every fault kind"""
+    stream = "sched.faults2"
+    pairs = [("wwc-perm/wc", W(b"A1", b"A2", perm=True, hC=["a"]), W(b"B", hC=["a"])),
+             ("with/with", W(b"A", perm=True), W(b"B")),
+             ("wc/wa", W(b"A", hC=["a"]), W(b"B", end="a", hC=["a"])),
+             ("indexwrite-style/wc", Script([("w", b"A1"), ("w", b"A2"), "c"], hW=["c"], hC=["c"], perm=True), W(b"B"))]
+    n = 0
+    for name, a, b in pairs:
+        la, lb = solo_len(root, a, b"old"), solo_len(root, b, b"old")
+        bases = [[0] * la + [1] * lb, [1] * lb + [0] * la, [0] * 2 + [1] + [0] * la + [1] * lb,
+                 [0] * (la - 1) + [1] + [0] * 3 + [1] * lb]
+        kinds = FAULT_KINDS + (["eio"] if ctx.thorough else [])
+        for base in bases:
+            for pos in range(len(base)):
+                for fk in kinds:
+                    sch = [(x, fk if j == pos else None) for j, x in enumerate(base)]
+                    check_case(ctx, stream, root, [a, b], sch, b"old", tag=f"{name}:{fk}", lines=lines)
+                    n += 1
+        flush_model(ctx, lines)
+    ctx.extra_cov["fault_schedules_2actors"] = n
+
+
+def _rand_script(rng, who: int) -> Script:
+    tagb = bytes([65 + who])
+    r = rng.random()
+    if r < 0.6:
+        body = [("w", tagb * rng.randint(0, 3)) for _ in range(rng.randint(0, 3))] + [rng.choice(["c", "c", "a"])]
+    else:
+        body = [rng.choice([("w", tagb * rng.randint(1, 2)), "c", "a"]) for _ in range(rng.randint(1, 4))]
+    hW = rng.choice([["a"], ["a"], ["a"], ["c"], []])
+    hC = rng.choice([[], ["a"], ["a"], ["c"]])
+    return Script(body, hW, hC, fsync=rng.random() < 0.7, perm=rng.random() < 0.4)
+
+
+def _stream_three(ctx, root, lines):
+    """three actors: a sample of the <=2-pre-emption interleavings plus random ones"""
+    stream = "sched.three"
+    rng = ctx.rng
+    trio = [W(b"A"), W(b"B", perm=True), W(b"C", fsync=False)]
+    ls = [solo_len(root, s, b"old") for s in trio]
+    allsch = list(sched.enumerate_schedules({str(i): l for i, l in enumerate(ls)}, 2))
+    ctx.extra_cov["three_actor_le2preempt_total"] = len(allsch)
+    n = ctx.budget(150)
+    pick = allsch if len(allsch) <= n else rng.sample(allsch, n)
+    for sch in pick:
+        check_case(ctx, stream, root, trio, [(int(x), None) for x in sch], b"old", tag="enum<=2", lines=lines)
+    # the window the old defect needed: X renames, Y opens, X's next step, Z opens — for every role assignment
+    for perm in itertools.permutations(range(3)):
+        x, y, z = perm
+        sch = [(x, None)] * (ls[x]) + [(y, None)] + [(x, None)] + [(z, None)] + [(y, None)] * ls[y] + [(z, None)] * ls[z]
+        check_case(ctx, stream, root, trio, sch, b"old", tag="rename-open-window", lines=lines)
+    flush_model(ctx, lines)
+    for _ in range(ctx.budget(150)):
+        sch = []
+        rem = list(ls)
+        while any(rem):
+            i = rng.choice([j for j in range(3) if rem[j]])
+            run_len = rng.randint(1, rem[i])
+            sch += [(i, None)] * run_len
+            rem[i] -= run_len
+        check_case(ctx, stream, root, trio, sch, b"old", tag="random", lines=lines)
+    flush_model(ctx, lines)
+
+
+def _stream_random(ctx, root, lines):
+    """random scripts (also undisciplined callers), 2-3 actors, random schedules with random faults"""
+    stream = "sched.random"
+    rng = ctx.rng
+    for _ in range(ctx.budget(500)):
+        n = rng.choice([2, 2, 3])
+        scripts = [_rand_script(rng, i) for i in range(n)]
+        init = rng.choice([b"old", b"old", None, b""])
+        sch = []
+        for _ in range(rng.randint(4, 10 * n)):
+            fk = rng.choice(FAULT_KINDS) if rng.random() < 0.12 else None
+            sch.append((rng.randrange(n), fk))
+        check_case(ctx, stream, root, scripts, sch, init, lines=lines)
+    flush_model(ctx, lines)
+
+
+# the recorded three-actor schedule of the repaired defect, in this module's step convention:
+# A: open-x write flush fsync replace | B: open-x | A: (old program: remove — unlinks B's lock) | C: open-x
+OLD_DEFECT_STEPS = [(0, None)] * 5 + [(1, None), (0, None), (2, None)]
+OLD_DEFECT_SCRIPTS = [W(b"A"), W(b"B"), W(b"C")]
+
+
+def _run_corpus(ctx, root, lines):
+    d = core.VERIF / "corpus" / "C07"
+    stream = "corpus"
+    for f in sorted(d.glob("*.json")):
+        c = json.loads(f.read_text())
+        if "actors" in c and isinstance(c.get("schedule"), list) and c["schedule"] and isinstance(c["schedule"][0], str):
+            # harness/sched.py convention: actor names, the initial park counts as a step, plain os.* yield points
+            names = sorted(c["actors"])
+            scripts = [W(bytes([65 + i])) for i in range(len(names))]
+            sch = [(names.index(a), None) for a in c["schedule"]]
+            check_case(ctx, stream, root, scripts, sch, b"old", tag=f.stem + ":plain", plain=True, lines=lines)
+            if f.stem == "three_actor_foreign_lock_removed":
+                # the same window in this module's convention (write/flush are yield points too), with the model
+                check_case(ctx, stream, root, OLD_DEFECT_SCRIPTS, OLD_DEFECT_STEPS, b"old", tag=f.stem + ":steps",
+                           lines=lines)
+                out = ctx.driver.batch([model_line(OLD_DEFECT_SCRIPTS, OLD_DEFECT_STEPS, b"old", prog="old")])[0]
+                tr, fin = parse_model(out)
+                ctx.count(stream, ("old-program", out), True, "old-program-model")
+                # on the OLD program the model must show the defect: C acquires while B still owns
+                if not (tr and tr[-1].startswith("open-x:ok") and fin.get("owns") == "011"):
+                    ctx.disagree(stream, {"witness": f.name}, out[:300],
+                                 "expected the pre-dd7ffc5 program to let C in while B owns the lock")
+        elif "scripts" in c:   # a case recorded by this module
+            scripts = [Script.from_spec(s) for s in c["scripts"]]
+            sch = [(i, fk) for i, fk in c["schedule"]]
+            init = None if c.get("init") is None else unhx(c["init"])
+            check_case(ctx, stream, root, scripts, sch, init, tag=f.stem, plain=bool(c.get("plain")), lines=lines)
+    flush_model(ctx, lines)
+
+
+# ------------------------------------------------------------------------------------------------
+# fault injection inside every dulwich routine that writes through the lock protocol
+# (direct oracle on the real file system; no model involved)
+
+FIXED_TIME = 1_700_000_000
+
+
+def _commit(tree_id, parents, msg):
+    from dulwich.objects import Commit
+    c = Commit()
+    c.tree = tree_id
+    c.parents = parents
+    c.author = c.committer = b"V Erif <verif@example.com>"
+    c.author_time = c.commit_time = FIXED_TIME
+    c.author_timezone = c.commit_timezone = 0
+    c.message = msg
+    return c
+
+
+def _entry(sha, size=6):
+    from dulwich.index import IndexEntry
+    return IndexEntry((FIXED_TIME, 0), (FIXED_TIME, 0), 1, 2, 0o100644, 1000, 1000, size, sha, 0, 0)
+
+
+def build_template(tpl: Path) -> dict:
+    """A small non-bare repository with loose + packed refs, an index, config, shallow, alternates,
+    commit-graph.  Returns the ids the scenarios use."""
+    from dulwich.repo import Repo
+    from dulwich.objects import Blob, Tree
+    if tpl.exists():
+        shutil.rmtree(tpl)
+    tpl.parent.mkdir(parents=True, exist_ok=True)
+    r = Repo.init(str(tpl), mkdir=True)
+    blob = Blob.from_string(b"hello\n")
+    tree = Tree()
+    tree.add(b"a.txt", 0o100644, blob.id)
+    c1 = _commit(tree.id, [], b"one\n")
+    c2 = _commit(tree.id, [c1.id], b"two\n")
+    for o in (blob, tree, c1, c2):
+        r.object_store.add_object(o)
+    r.refs[b"refs/heads/master"] = c1.id
+    r.refs[b"refs/heads/topic"] = c1.id
+    r.refs[b"refs/tags/v1"] = c1.id
+    r.refs.add_packed_refs({b"refs/heads/packed": c1.id, b"refs/tags/v0": c1.id})
+    from dulwich.index import Index
+    idx = Index(os.path.join(r.controldir(), "index"), read=False)
+    idx[b"a.txt"] = _entry(blob.id)
+    idx.write()
+    r.update_shallow({c1.id}, None)
+    alt = tpl / "alt-objects"
+    alt.mkdir()
+    r.object_store.add_alternate_path(str(alt))
+    r.object_store.write_commit_graph()
+    r.close()
+    return {"blob": blob.id, "tree": tree.id, "c1": c1.id, "c2": c2.id}
+
+
+def _scenarios(ids):
+    """(name, op(worktree path)) for every routine that writes through GitFile(…, 'wb')."""
+    from dulwich.repo import Repo
+    from dulwich.objects import Blob
+    c1, c2, blob = ids["c1"], ids["c2"], ids["blob"]
+    kw = dict(committer=b"V Erif <verif@example.com>", timestamp=FIXED_TIME, timezone=0, message=b"verif")
+
+    def with_repo(fn):
+        def op(w):
+            r = Repo(str(w))
+            try:
+                return fn(r, w)
+            finally:
+                r.close()
+        return op
+
+    def index_write(r, w):
+        idx = r.open_index()
+        idx[b"b.txt"] = _entry(blob, 7)
+        idx[b"dir/c.txt"] = _entry(blob, 8)
+        idx.write()
+
+    def index_write_shared(r, w):
+        from dulwich.index import Index
+        from dulwich.file import PERM_GROUP
+        idx = Index(os.path.join(r.controldir(), "index"), shared_perm=PERM_GROUP)
+        idx[b"b.txt"] = _entry(blob, 7)
+        idx.write()
+
+    def index_write_skiphash(r, w):
+        from dulwich.index import Index
+        idx = Index(os.path.join(r.controldir(), "index"), skip_hash=True)
+        idx[b"b.txt"] = _entry(blob, 7)
+        idx.write()
+
+    def locked_index(r, w):
+        from dulwich.index import locked_index as li
+        with li(os.path.join(r.controldir(), "index")) as idx:
+            idx[b"b.txt"] = _entry(blob, 7)
+
+    def set_if_equals(r, w):
+        assert r.refs.set_if_equals(b"refs/heads/master", c1, c2, **kw)
+
+    def set_new(r, w):
+        assert r.refs.set_if_equals(b"refs/heads/new/deep", None, c2, **kw)
+
+    def add_if_new(r, w):
+        assert r.refs.add_if_new(b"refs/heads/new2", c2, **kw)
+
+    def set_symbolic(r, w):
+        r.refs.set_symbolic_ref(b"HEAD", b"refs/heads/topic", **kw)
+
+    def remove_packed(r, w):
+        assert r.refs.remove_if_equals(b"refs/heads/packed", c1, **kw)
+
+    def remove_loose(r, w):
+        assert r.refs.remove_if_equals(b"refs/heads/topic", c1, **kw)
+
+    def add_packed(r, w):
+        r.refs.add_packed_refs({b"refs/heads/topic": c1, b"refs/tags/v0": None})
+
+    def pack_refs(r, w):
+        r.refs.pack_refs(all=True)
+
+    def locked_ref(r, w):
+        from dulwich.refs import locked_ref as lr
+        with lr(r.refs, b"refs/heads/master") as ref:
+            assert ref.ensure_equals(c1)
+            ref.set(c2)
+
+    def config_write(r, w):
+        c = r.get_config()
+        c.set((b"user",), b"name", b"Somebody")
+        c.set((b"remote", b"origin"), b"url", b"https://example.com/x.git")
+        c.write_to_path()
+
+    def loose_object(r, w):
+        r.object_store.add_object(Blob.from_string(b"a new loose object\n"))
+
+    def add_objects_pack(r, w):
+        objs = [(Blob.from_string(b"packed %d\n" % i), None) for i in range(3)]
+        r.object_store.add_objects(objs)
+
+    def write_pack_fn(r, w):
+        from dulwich.pack import write_pack
+        objs = [(Blob.from_string(b"wp %d\n" % i), None) for i in range(2)]
+        write_pack(os.path.join(str(w), "standalone-pack"), objs, r.object_format)
+
+    def pack_index(r, w):
+        from dulwich.pack import write_pack, PackData
+        p = os.path.join(str(w), "px")
+        if not os.path.exists(p + ".pack"):
+            raise RuntimeError("prepared pack missing")
+        pd = PackData(p + ".pack", object_format=r.object_format)
+        try:
+            pd.create_index(p + ".idx2")
+        finally:
+            pd.close()
+
+    def commit_graph_store(r, w):
+        r.object_store.write_commit_graph()
+
+    def commit_graph_module(r, w):
+        from dulwich.commit_graph import write_commit_graph
+        write_commit_graph(os.fsencode(r.controldir()), r.object_store, [c2])
+
+    def shallow(r, w):
+        r.update_shallow({c2}, None)
+
+    def alternates(r, w):
+        other = Path(w) / "alt2"
+        other.mkdir(exist_ok=True)
+        r.object_store.add_alternate_path(str(other))
+
+    def named_file(r, w):
+        r._put_named_file("description", b"a repository\n")
+
+    def named_file_shared(r, w):
+        c = r.get_config()
+        c.set((b"core",), b"sharedRepository", b"group")
+        c.write_to_path()
+        r2 = Repo(str(w))
+        try:
+            r2._put_named_file("description", b"a shared repository\n")
+        finally:
+            r2.close()
+
+    sc = [("Index.write", index_write), ("Index.write[shared_perm]", index_write_shared),
+          ("Index.write[skip_hash]", index_write_skiphash), ("locked_index", locked_index),
+          ("refs.set_if_equals", set_if_equals), ("refs.set_if_equals[new]", set_new), ("refs.add_if_new", add_if_new),
+          ("refs.set_symbolic_ref", set_symbolic), ("refs.remove_if_equals[packed]", remove_packed),
+          ("refs.remove_if_equals[loose]", remove_loose), ("refs.add_packed_refs", add_packed),
+          ("refs.pack_refs", pack_refs), ("locked_ref", locked_ref), ("ConfigFile.write_to_path", config_write),
+          ("object_store.add_object[loose]", loose_object), ("object_store.add_objects[pack+idx]", add_objects_pack),
+          ("pack.write_pack", write_pack_fn), ("PackData.create_index", pack_index),
+          ("object_store.write_commit_graph", commit_graph_store), ("commit_graph.write_commit_graph", commit_graph_module),
+          ("repo.update_shallow", shallow), ("object_store.add_alternate_path", alternates),
+          ("repo._put_named_file", named_file), ("repo._put_named_file[sharedRepository]", named_file_shared)]
+    return [(n, with_repo(f)) for n, f in sc]
+
+
+def _prepare_extra(tpl: Path, ids):
+    """things some scenarios need in the template (a standalone pack to index)"""
+    from dulwich.repo import Repo
+    from dulwich.objects import Blob
+    from dulwich.pack import write_pack
+    r = Repo(str(tpl))
+    try:
+        write_pack(os.path.join(str(tpl), "px"), [(Blob.from_string(b"px %d\n" % i), None) for i in range(2)],
+                   r.object_format)
+    finally:
+        r.close()
+
+
+def _read_tree(w: Path) -> dict:
+    out = {}
+    for dp, dn, fn in os.walk(w):
+        for f in fn:
+            p = os.path.join(dp, f)
+            try:
+                with open(p, "rb") as fh:
+                    out[os.path.relpath(p, w)] = fh.read()
+            except OSError:
+                pass
+    return out
+
+
+def _locks(w: Path) -> list[str]:
+    return sorted(os.path.relpath(os.path.join(dp, f), w) for dp, dn, fn in os.walk(w) for f in fn if f.endswith(".lock"))
+
+
+class FaultRun:
+    pass
+
+
+def run_with_fault(w: Path, op, k: int | None, kind: str | None, old: dict, new: dict | None, targets: set | None):
+    """Run op on worktree `w` with the k-th interposed call raising; returns a FaultRun with what was seen."""
+    fr = FaultRun()
+    fr.reader_bad = []
+    fr.raised = None
+    fr.n_at_raise = None
+
+    def boundary(j, pending):
+        if targets is None or new is None:
+            return
+        for t in targets:
+            try:
+                with open(os.path.join(w, t), "rb") as fh:
+                    c = fh.read()
+            except FileNotFoundError:
+                c = None
+            if c != old.get(t) and c != new.get(t):
+                fr.reader_bad.append((j, t))
+    fail_at = {k: FAULTS[kind]()} if k is not None else {}
+    rec = sched.Recorder(str(w), on_boundary=boundary, reads=False, fail_at=fail_at)
+    gc_was = gc.isenabled()
+    gc.disable()
+    old_umask = os.umask(0o022)
+    try:
+        with warnings.catch_warnings():
+            warnings.simplefilter("ignore")
+            with rec, _FileYields(rec.ip):
+                try:
+                    op(w)
+                except BaseException as e:  # noqa: BLE001
+                    fr.raised = type(e).__name__ + ": " + str(e)[:80]
+                    # what the caller of the failed routine finds while it handles the exception
+                    fr.locks_at_raise = _locks(w)
+                    fr.n_at_raise = len(rec.events)
+                    _scrub(e)
+                    del e
+            rec.fail_at.clear()
+            fail_at.clear()
+            fr.events = [(c, p, o) for _, c, p, o in rec.events]
+            gc.collect()   # CPython finalises the dropped handles now (__del__ -> abort())
+            fr.locks_after_gc = _locks(w)
+            if fr.raised is None:
+                fr.locks_at_raise = fr.locks_after_gc
+    finally:
+        os.umask(old_umask)
+        if gc_was:
+            gc.enable()
+    fr.after = _read_tree(w)
+    return fr
+
+
+def _targets_of(events) -> set:
+    return {p[0][:-5] for c, p, o in events if c in OPEN_CALLS and p and p[0].endswith(".lock")}
+
+
+def _judge_fault(ctx, stream, name, k, kind, fr, ref_events, old, new, targets):
+    """The property's words on one fault run."""
+    call, paths, _ = ref_events[k] if k is not None and k < len(ref_events) else ("-", (), "")
+    case = {"routine": name, "fail_at": k, "call": call, "paths": list(paths), "fault": kind,
+            "raised": fr.raised, "events": [[c, list(p), o] for c, p, o in fr.events][-12:]}
+    inj = next((j for j, e in enumerate(fr.events) if e[2].startswith("inject:")), None)
+    tset = set(targets) | _targets_of(fr.events)
+    # targets the routine deliberately unlinks itself (ref deletion under the lock) are not "writes"
+    unlinked = {p[0] for c, p, o in fr.events if c in ("remove", "unlink") and o == "ok" and p and not p[0].endswith(".lock")}
+    is_index_write = name.startswith("Index.write")
+
+    def renamed_after_failure(t):
+        """was the lock file of `t` renamed into place after the injected failure?"""
+        return inj is not None and any(c == "replace" and o == "ok" and len(p) == 2 and p[1] == t
+                                       for c, p, o in fr.events[inj + 1:])
+    for t in sorted(tset):
+        got = fr.after.get(t)
+        if t in unlinked:
+            continue
+        if fr.raised is not None:
+            # a write of `t` that completed before the failure stands; one that was in progress or had not
+            # started must leave the old content
+            if got != old.get(t) and renamed_after_failure(t):
+                partial = got != new.get(t)
+                cls = "index-write:error-path-renames-lock-into-place" if is_index_write \
+                    else f"{name}:target-renamed-after-failure"
+                ctx.oracle_fail(stream, dict(case, target=t, partial=partial),
+                                f"{name} raised {fr.raised!r} but `{t}` no longer has its old content "
+                                f"({'a truncated/partial file' if partial else 'the new content'} was renamed into place "
+                                f"after the failure)", cls)
+        if got != old.get(t) and got != new.get(t):
+            cls = "index-write:error-path-renames-lock-into-place" if (is_index_write and renamed_after_failure(t)) \
+                else f"{name}:partial-content"
+            ctx.oracle_fail(stream, dict(case, target=t), f"after {name} `{t}` is neither the old nor the complete new "
+                            f"content", cls)
+    for j, t in fr.reader_bad[:1]:
+        cls = "index-write:error-path-renames-lock-into-place" if (is_index_write and renamed_after_failure(t)) \
+            else f"{name}:reader-saw-partial"
+        ctx.oracle_fail(stream, dict(case, target=t, boundary=j), f"a reader of `{t}` would have seen partial content "
+                        f"before call {j} of {name}", cls)
+    # the lock must be released when the routine is over (unless the unlink of the lock itself was what failed)
+    lock_rm_failed = any(c in ("remove", "unlink") and o.startswith("inject:") and p and p[0].endswith(".lock")
+                         for c, p, o in fr.events)
+    if fr.locks_after_gc and not lock_rm_failed:
+        ctx.oracle_fail(stream, dict(case, locks=fr.locks_after_gc),
+                        f"{name}: lock file(s) {fr.locks_after_gc} left behind for good", f"{name}:lock-leaked")
+    elif fr.locks_at_raise and not lock_rm_failed:
+        in_close_pre = call in ("flush", "fsync", "stat", "chmod") and paths and paths[0].endswith(".lock")
+        upto = fr.n_at_raise if fr.n_at_raise is not None else len(fr.events)
+        removed_after = inj is not None and any(c == "remove" and p and p[0].endswith(".lock")
+                                                for c, p, o in fr.events[inj + 1:upto])
+        if in_close_pre and not removed_after:
+            cls = "close-fault-before-rename:lock-left-until-finalizer"
+        else:
+            cls = f"{name}:lock-left-until-finalizer"
+        ctx.oracle_fail(stream, dict(case, locks=fr.locks_at_raise),
+                        f"{name} raised {fr.raised!r} and `{fr.locks_at_raise[0]}` is still there while the caller handles "
+                        f"the exception (only the handle's finaliser removes it)", cls)
+
+
+def _stream_fault_callers(ctx, base: Path, only=None, only_fault=None):
+    stream = "fault.callers"
+    tpl = base / "tpl"
+    ids = build_template(tpl)
+    _prepare_extra(tpl, ids)
+    old = _read_tree(tpl)
+    w = base / "w"
+    kinds_all = FAULT_KINDS + (["eio"] if ctx.thorough else [])
+    cov = {}
+    for name, op in _scenarios(ids):
+        if only and name not in only:
+            continue
+        # reference run: the program of interposed calls, the new content
+        if w.exists():
+            shutil.rmtree(w)
+        shutil.copytree(tpl, w, symlinks=True)
+        ref = run_with_fault(w, op, None, None, old, None, None)
+        if ref.raised is not None:
+            raise core.InfraError(f"scenario {name} fails without any fault: {ref.raised}")
+        new = ref.after
+        targets = _targets_of(ref.events)
+        if not targets:
+            raise core.InfraError(f"scenario {name} never opened a lock file: {ref.events}")
+        if ref.locks_after_gc:
+            ctx.oracle_fail(stream, {"routine": name}, f"{name} left {ref.locks_after_gc} behind without any fault", f"{name}:lock-leaked")
+        cov[name] = {"calls": len(ref.events), "lock_protocol_calls": 0, "targets": sorted(targets)}
+        widx = [k for k, (call, paths, _) in enumerate(ref.events) if call == "write"]
+        keep_w = set(widx)
+        if len(widx) > 12 and not ctx.thorough:
+            keep_w = set(widx[:4] + widx[-4:] + ctx.rng.sample(widx[4:-4], 4))
+        cov[name]["write_calls"] = len(widx)
+        cov[name]["write_calls_faulted"] = len(keep_w)
+        for k, (call, paths, _) in enumerate(ref.events):
+            on_lock = bool(paths) and (paths[0].endswith(".lock"))
+            if on_lock:
+                cov[name]["lock_protocol_calls"] += 1
+            if call == "write" and k not in keep_w and only_fault is None:
+                continue
+            if only_fault is not None and k != only_fault[0]:
+                continue
+            kinds = kinds_all if on_lock else [kinds_all[k % len(kinds_all)]]
+            if only_fault is not None:
+                kinds = [only_fault[1]]
+            for kind in kinds:
+                shutil.rmtree(w)
+                shutil.copytree(tpl, w, symlinks=True)
+                fr = run_with_fault(w, op, k, kind, old, new, targets)
+                ctx.count(stream, (name, k, kind), True, f"{name}:{call}")
+                _judge_fault(ctx, stream, name, k, kind, fr, ref.events, old, new, targets)
+    ctx.extra_cov["fault_injection_routines"] = cov
+    # F7 without any injected fault: an entry whose size does not fit the 32-bit field
+    if not only or "Index.write" in only:
+        shutil.rmtree(w, ignore_errors=True)
+        shutil.copytree(tpl, w, symlinks=True)
+
+        def big(wt):
+            from dulwich.repo import Repo
+            r = Repo(str(wt))
+            try:
+                idx = r.open_index()
+                idx[b"b.txt"] = _entry(ids["blob"], 7)
+                idx[b"big.bin"] = _entry(ids["blob"], 1 << 32)
+                idx.write()
+            finally:
+                r.close()
+        fr = run_with_fault(w, big, None, None, old, None, None)
+        ctx.count(stream, ("Index.write", "size>=2^32"), True, "Index.write:size>=2^32")
+        if fr.raised is None:
+            ctx.notes.append("Index.write accepted an entry of size 2^32 (no error path exercised)")
+        else:
+            t = ".git/index"
+            if fr.after.get(t) != old.get(t):
+                renamed = any(c == "replace" and o == "ok" for c, p, o in fr.events)
+                ctx.oracle_fail(stream, {"routine": "Index.write", "entry_size": 1 << 32, "raised": fr.raised,
+                                         "old_len": len(old.get(t, b"")), "new_len": len(fr.after.get(t) or b"")},
+                                f"Index.write raised {fr.raised!r} on an entry of size 2^32 and replaced the index by a "
+                                f"truncated file ({len(old.get(t, b''))} -> {len(fr.after.get(t) or b'')} bytes)",
+                                "index-write:error-path-renames-lock-into-place" if renamed else "Index.write:target-changed-after-failed-write")
+            if fr.locks_after_gc:
+                ctx.oracle_fail(stream, {"routine": "Index.write", "entry_size": 1 << 32}, "lock left behind", "Index.write:lock-leaked")
+
+
+def run(ctx: core.Ctx):
+    base = Path(os.path.realpath(ctx.scratch))
+    root = base / "sched"
+    lines: list = []
+    prog = ctx.driver.batch(["c07.program"])[0]
+    ctx.extra_cov["program_read_from_source"] = prog
+    ctx.assumptions += [
+        "atomic steps are system calls (open(O_EXCL), rename, unlink atomic; POSIX local file system); NFS-style "
+        "non-atomic O_EXCL, Windows rename semantics and _fancy_rename are not modelled",
+        "buffered writes: data reaches the lock file's inode at flush/close; the lock file's content is not "
+        "compared per step, only the content of `f`, the directory listing and each call's outcome",
+        "one _GitFile handle per actor; actors are threads of one process driven at interposed os.* calls plus "
+        "write()/flush() of the handle's file object",
+    ]
+    _run_corpus(ctx, root, lines)
+    _stream_exhaustive2(ctx, root, lines)
+    _stream_faults2(ctx, root, lines)
+    _stream_three(ctx, root, lines)
+    _stream_random(ctx, root, lines)
+    flush_model(ctx, lines)
+    _stream_fault_callers(ctx, base / "callers")
+
+
+def search(ctx: core.Ctx):
+    """Failing-input search after a broken obligation / correspondence: no model involved, only the monitor and
+    the fault oracle, with a larger budget and aimed at the windows around rename/unlink/open."""
+    base = Path(os.path.realpath(ctx.scratch))
+    root = base / "search"
+    rng = ctx.rng
+    stream = "search.sched"
+    # 1. disagreeing cases first, then their neighbourhood (every single-step deviation of the schedule)
+    for dgr in ctx.disagreements[:20]:
+        c = dgr["case"]
+        if "scripts" not in c:
+            continue
+        scripts = [Script.from_spec(x) for x in c["scripts"]]
+        init = None if c.get("init") is None else unhx(c["init"])
+        sch = [(i, fk) for i, fk in c.get("executed") or c["schedule"]]
+        check_case(ctx, stream, root, scripts, sch, init, tag="disagreeing", model=False, plain=bool(c.get("plain")))
+        for pos in range(len(sch)):
+            for alt in range(len(scripts)):
+                if alt != sch[pos][0]:
+                    check_case(ctx, stream, root, scripts, sch[:pos] + [(alt, None)] + sch[pos:], init,
+                               tag="neighbour", model=False)
+        if ctx.oracle_failures:
+            return
+    # 2. the rename/open/next-step window for every pair and trio of the catalogue
+    cat = [a for _, a, b in PAIR_SCRIPTS] + [b for _, a, b in PAIR_SCRIPTS]
+    for _ in range(ctx.budget(300)):
+        n = rng.choice([2, 3, 3])
+        scripts = [rng.choice(cat) if rng.random() < 0.7 else _rand_script(rng, i) for i in range(n)]
+        ls = [solo_len(root, sc_, b"old") for sc_ in scripts]
+        order = list(range(n))
+        rng.shuffle(order)
+        x = order[0]
+        cut = rng.randint(max(1, ls[x] - 2), ls[x])
+        sch = [(x, None)] * cut
+        for y in order[1:]:
+            sch += [(y, None)] * rng.randint(1, 2) + [(x, None)]
+        fk = rng.choice(FAULT_KINDS + [None, None, None])
+        if fk:
+            pos = rng.randrange(len(sch))
+            sch[pos] = (sch[pos][0], fk)
+        check_case(ctx, stream, root, scripts, sch, rng.choice([b"old", None]), tag="window", model=False)
+    if ctx.oracle_failures:
+        return
+    # 3. exhaustive <= 3 pre-emptions for the basic pair, all faults on the callers
+    a, b = W(b"A1", b"A2"), W(b"B", perm=True)
+    la, lb = solo_len(root, a, b"old"), solo_len(root, b, b"old")
+    for sch in sched.enumerate_schedules({"0": la, "1": lb}, 3):
+        check_case(ctx, stream, root, [a, b], [(int(x), None) for x in sch], b"old", tag="enum<=3", model=False)
+    if ctx.oracle_failures:
+        return
+    _stream_random(ctx, root, lines=[])   # (model lines are collected but not evaluated)
+    _stream_fault_callers(ctx, base / "search-callers")
+
+
+def replay(ctx: core.Ctx, data: dict) -> int:
+    base = Path(os.path.realpath(ctx.scratch))
+    kind = data.get("kind")
+    c = data.get("case", data)
+    # Gen/Lock.lean and the driver must describe the tree that is being replayed against
+    ctx.lean = core.lean_check("C07")
+    if kind == "broken-obligation":
+        print("replay: proof obligations", "hold" if ctx.lean.ok else f"are broken: {ctx.lean.problems}")
+        for dgr in data.get("disagreements", []):
+            cc = dgr["case"]
+            if "scripts" in cc:
+                lines = []
+                check_case(ctx, "replay", base / "replay", [Script.from_spec(x) for x in cc["scripts"]],
+                           [(i, fk) for i, fk in cc.get("executed") or cc["schedule"]],
+                           None if cc.get("init") is None else unhx(cc["init"]), lines=lines)
+                flush_model(ctx, lines)
+        bad = (not ctx.lean.ok) or ctx.disagreements or ctx.oracle_failures
+        if bad:
+            print(f"VIOLATION property=C07 replay={data.get('_path', '<replayed>')}" +
+                  ("" if ctx.oracle_failures else " no-failing-input-found"))
+            return 1
+        print("replay: property holds on this case")
+        return 0
+    if "scripts" in c:
+        scripts = [Script.from_spec(x) for x in c["scripts"]]
+        sch = [(i, fk) for i, fk in (c.get("schedule") if c.get("plain") else (c.get("executed") or c["schedule"]))]
+        init = None if c.get("init") is None else unhx(c["init"])
+        lines = []
+        rr = check_case(ctx, "replay", base / "replay", scripts, sch, init, plain=bool(c.get("plain")), lines=lines)
+        for k, e in enumerate(rr.events):
+            print("replay step", k, e, "->", rr.snaps[k + 1], "lock creator:", rr.lock_owner[k + 1])
+        flush_model(ctx, lines)
+        for d in ctx.disagreements:
+            print("replay: model/implementation disagreement:", d["model"][:300], "VS", d["impl"][:300])
+    elif "routine" in c:
+        _stream_fault_callers(ctx, base / "replay-callers", only={c["routine"]},
+                              only_fault=(c.get("fail_at"), c.get("fault")) if isinstance(c.get("fail_at"), int) else None)
+    else:
+        print("replay: case not understood")
+        return 2
+    for f in ctx.oracle_failures:
+        print("replay: oracle failure:", f["class"], "-", f["what"])
+    for kf, n in ctx.known_hit.items():
+        print(f"KNOWN-FINDING: property=C07 {kf} (hit {n}x)")
+    if ctx.oracle_failures:
+        print(f"VIOLATION property=C07 replay={data.get('_path', '<replayed>')}")
+        return 1
+    print("replay: property holds on this case" + (" (known finding reproduced)" if ctx.known_hit else ""))
+    return 0
